@@ -34,37 +34,39 @@ def correspondence(ctx):
     ctx.sample({"linear_classes": S.LINEAR, "what": "jvp(u; v) == model_step(v); <w, Jv> == <J^T w, v>"})
 
 
+ORDER = [2]   # ETDRK order used by the nonlinear entries of PARAMS (the oracle cycles 1..4)
 PARAMS = {
     # name: (D, constructor(param_dict, dt), {param: value})
     "Diffusion": (2, lambda ex, p, dt: ex.stepper.Diffusion(2, 2.0, 8, dt, diffusivity=p["diffusivity"] * __import__("jax").numpy.ones(2)), {"diffusivity": 0.07}),
     "Advection": (1, lambda ex, p, dt: ex.stepper.Advection(1, 2.0, 12, dt, velocity=p["velocity"] * __import__("jax").numpy.ones(1)), {"velocity": 0.8}),
     "Dispersion": (1, lambda ex, p, dt: ex.stepper.Dispersion(1, 4.0, 11, dt, dispersivity=p["dispersivity"] * __import__("jax").numpy.ones(1)), {"dispersivity": 0.3}),
     "Wave": (1, lambda ex, p, dt: ex.stepper.Wave(1, 2.0, 11, dt, speed_of_sound=p["speed_of_sound"]), {"speed_of_sound": 1.3}),
-    "Burgers": (1, lambda ex, p, dt: ex.stepper.Burgers(1, 3.0, 12, dt, diffusivity=p["diffusivity"], convection_scale=p["convection_scale"], order=2),
+    "Burgers": (1, lambda ex, p, dt: ex.stepper.Burgers(1, 3.0, 12, dt, diffusivity=p["diffusivity"], convection_scale=p["convection_scale"], order=ORDER[0]),
                 {"diffusivity": 0.08, "convection_scale": 0.9}),
-    "KortewegDeVries": (1, lambda ex, p, dt: ex.stepper.KortewegDeVries(1, 8.0, 12, dt, dispersivity=p["dispersivity"], convection_scale=p["convection_scale"], order=3),
+    "KortewegDeVries": (1, lambda ex, p, dt: ex.stepper.KortewegDeVries(1, 8.0, 12, dt, dispersivity=p["dispersivity"], convection_scale=p["convection_scale"], order=ORDER[0]),
                         {"dispersivity": 0.4, "convection_scale": -2.0}),
-    "KuramotoSivashinsky": (1, lambda ex, p, dt: ex.stepper.KuramotoSivashinsky(1, 20.0, 12, dt, gradient_norm_scale=p["gradient_norm_scale"], second_order_scale=p["second_order_scale"], order=2),
+    "KuramotoSivashinsky": (1, lambda ex, p, dt: ex.stepper.KuramotoSivashinsky(1, 20.0, 12, dt, gradient_norm_scale=p["gradient_norm_scale"], second_order_scale=p["second_order_scale"], order=ORDER[0]),
                             {"gradient_norm_scale": 0.8, "second_order_scale": 1.1}),
-    "FisherKPP": (2, lambda ex, p, dt: ex.stepper.reaction.FisherKPP(2, 3.0, 6, dt, diffusivity=p["diffusivity"], reactivity=p["reactivity"], order=2),
+    "FisherKPP": (2, lambda ex, p, dt: ex.stepper.reaction.FisherKPP(2, 3.0, 6, dt, diffusivity=p["diffusivity"], reactivity=p["reactivity"], order=ORDER[0]),
                   {"diffusivity": 0.02, "reactivity": 1.2}),
-    "GrayScott": (1, lambda ex, p, dt: ex.stepper.reaction.GrayScott(1, 2.0, 12, dt, feed_rate=p["feed_rate"], kill_rate=p["kill_rate"], order=2),
+    "GrayScott": (1, lambda ex, p, dt: ex.stepper.reaction.GrayScott(1, 2.0, 12, dt, feed_rate=p["feed_rate"], kill_rate=p["kill_rate"], order=ORDER[0]),
                   {"feed_rate": 0.04, "kill_rate": 0.06}),
     "GeneralNonlinearStepper": (1, lambda ex, p, dt: ex.stepper.generic.GeneralNonlinearStepper(
-        1, 3.0, 12, dt, linear_coefficients=(0.0, p["a1"], p["a2"]), nonlinear_coefficients=(p["b0"], p["b1"], 0.1), order=2),
+        1, 3.0, 12, dt, linear_coefficients=(0.0, p["a1"], p["a2"]), nonlinear_coefficients=(p["b0"], p["b1"], 0.1), order=ORDER[0]),
         {"a1": -0.3, "a2": 0.05, "b0": 0.2, "b1": -0.7}),
-    "NavierStokesVorticity": (2, lambda ex, p, dt: ex.stepper.NavierStokesVorticity(2, 3.0, 8, dt, diffusivity=p["diffusivity"], drag=p["drag"], order=2),
+    "NavierStokesVorticity": (2, lambda ex, p, dt: ex.stepper.NavierStokesVorticity(2, 3.0, 8, dt, diffusivity=p["diffusivity"], drag=p["drag"], order=ORDER[0]),
                               {"diffusivity": 0.03, "drag": -0.05}),
-    "NavierStokesVelocity": (3, lambda ex, p, dt: ex.stepper.NavierStokesVelocity(3, 3.0, 5, dt, diffusivity=p["diffusivity"], order=2),
+    "NavierStokesVelocity": (3, lambda ex, p, dt: ex.stepper.NavierStokesVelocity(3, 3.0, 5, dt, diffusivity=p["diffusivity"], order=ORDER[0]),
                              {"diffusivity": 0.03}),
 }
 CHANNELS = {"Wave": 2, "GrayScott": 2, "NavierStokesVelocity": 3}
 
 
-def probe_param_derivatives(name, seed):
+def probe_param_derivatives(name, seed, order=2):
     import jax
     import jax.numpy as jnp
     import exponax as ex
+    ORDER[0] = int(order)
     rng = np.random.default_rng(seed)
     D, mk, p0 = PARAMS[name]
     dt0 = 0.05
@@ -96,6 +98,10 @@ def probe_param_derivatives(name, seed):
     scd = float(np.max(np.abs(fd))) + 1e-9
     res["dt"] = float(np.max(np.abs(np.asarray(jd) - fd))) / scd
     finite = finite and bool(np.all(np.isfinite(np.asarray(jd))))
+    # reverse mode w.r.t. dt: grad of <w, step> equals <w, d step / d dt>
+    gd = jax.grad(lambda dt: jnp.sum(w * f_dt(dt)))(jnp.asarray(dt0))
+    res["dt:reverse"] = abs(float(gd) - float(jnp.sum(w * jd))) / (abs(float(jnp.sum(w * jd))) + scd * float(jnp.linalg.norm(w)) * 1e-3 + 1e-12)
+    finite = finite and bool(np.isfinite(float(gd)))
     # coefficients
     for key, val in p0.items():
         def f_p(x, key=key):
@@ -108,28 +114,92 @@ def probe_param_derivatives(name, seed):
         scp = float(np.max(np.abs(fd))) + 1e-9
         res[f"coef:{key}"] = float(np.max(np.abs(np.asarray(jp) - fd))) / scp
         finite = finite and bool(np.all(np.isfinite(np.asarray(jp))))
+        gp = jax.grad(lambda x: jnp.sum(w * f_p(x)))(jnp.asarray(val))
+        res[f"coef:{key}:reverse"] = abs(float(gp) - float(jnp.sum(w * jp))) / (abs(float(jnp.sum(w * jp))) + scp * float(jnp.linalg.norm(w)) * 1e-3 + 1e-12)
+        finite = finite and bool(np.isfinite(float(gp)))
     # through a rollout
     def f_roll(x):
         return ex.rollout(mk(ex, p0, dt0), 3)(x)
     _, jr = jax.jvp(f_roll, (u,), (v,))
     fd = (np.asarray(f_roll(u + h * v)) - np.asarray(f_roll(u - h * v))) / (2 * h)
     res["rollout"] = float(np.max(np.abs(np.asarray(jr) - fd))) / (float(np.max(np.abs(fd))) + 1e-12)
-    bad = {k: x for k, x in res.items() if not x <= (1e-9 if k == "adjoint" else 2e-5)}
+    bad = {k: x for k, x in res.items() if not x <= (1e-9 if k == "adjoint" else (1e-8 if k.endswith(":reverse") else 2e-5))}
     return {"ok": bool(not bad and finite), "bad": bad, "finite": finite, "all": res}
+
+
+def probe_guarded_points(name, D, N, order, seed):
+    """derivatives at the states where a naive implementation divides by zero or takes the root of zero: the zero
+    state and a spatially constant state (zero gradient everywhere, only the mean mode populated); they must be finite,
+    the jvp must match central differences (the step is a smooth map there) and the vjp must be its adjoint"""
+    import jax
+    import jax.numpy as jnp
+    rng = np.random.default_rng(seed)
+    spec = S.registry()[name](rng, D, N, order)
+    if spec is None:
+        return {"ok": True, "skipped": "dimension"}
+    st = spec.build()
+    shape = (spec.C,) + (N,) * D
+    v = jnp.asarray(S.random_state(rng, spec.C, D, N, "smooth"))
+    w = jnp.asarray(S.random_state(rng, spec.C, D, N, "smooth"))
+    bad = {}
+    consts = rng.uniform(0.3, 1.2, size=(spec.C,) + (1,) * D)
+    for label, u in (("zero", jnp.zeros(shape)), ("constant", jnp.asarray(np.broadcast_to(consts, shape).copy()))):
+        y, jv = jax.jvp(st, (u,), (v,))
+        _, vjp = jax.vjp(st, u)
+        jtw = vjp(w)[0]
+        if not (np.all(np.isfinite(np.asarray(y)))):
+            continue   # the step itself is not finite here: a statement about the value (C19), not about its derivative
+        if not (np.all(np.isfinite(np.asarray(jv))) and np.all(np.isfinite(np.asarray(jtw)))):
+            bad[f"{label}:non-finite"] = float("nan")
+            continue
+        h = 1e-5
+        fd = (np.asarray(st(u + h * v)) - np.asarray(st(u - h * v))) / (2 * h)
+        sc = float(np.max(np.abs(fd))) + 1e-9
+        e = float(np.max(np.abs(np.asarray(jv) - fd))) / sc
+        if not e <= 2e-5:
+            bad[f"{label}:jvp-vs-central-differences"] = e
+        a = abs(float(jnp.sum(w * jv)) - float(jnp.sum(jtw * v))) / (float(jnp.linalg.norm(w)) * float(jnp.linalg.norm(v)) + 1e-300)
+        if not a <= 1e-9 * max(1.0, sc):
+            bad[f"{label}:adjoint"] = a
+    return {"ok": not bad, "bad": bad, "kwargs": {k: str(x) for k, x in spec.kwargs.items()}}
+
+
+GUARDED_ALWAYS = ["KuramotoSivashinsky", "GeneralGradientNormStepper", "GeneralNonlinearStepper", "NavierStokesVorticity",
+                  "Burgers", "FisherKPP"]
 
 
 def oracle(ctx, deep):
     fails = []
+    reg = list(S.registry().keys())
+    gnames = reg if deep else list(dict.fromkeys(GUARDED_ALWAYS + [n for i, n in enumerate(reg) if (i + ctx.seed) % 4 == 0]))
+    for idx, name in enumerate(gnames):
+        D = 2 if "Vorticity" in name else (3 if "Velocity" in name else (idx % 2) + 1)
+        N = {1: 10, 2: 6, 3: 5}[D]
+        order = 0 if name in S.LINEAR else (idx % 4) + 1
+        r = probe_guarded_points(name, D, N, order, ctx.seed + idx)
+        ctx.count(("oracle_guarded", name, D, order))
+        if not r["ok"]:
+            for k in r["bad"]:
+                fails.append({"key": f"C07:guarded:{name}:{k.split(':')[1]}", "what": f"{name} (D={D}, N={N}, order={order}): derivative at the {k.split(':')[0]} state: {k.split(':')[1]} ({r['bad'][k]})",
+                              "probe": "guarded", "args": {"name": name, "D": D, "N": N, "order": order, "seed": ctx.seed + idx}, "observed": r})
     names = list(PARAMS.keys())
     if not deep:
         names = [n for i, n in enumerate(names) if (i + ctx.seed) % 2 == 0] + ["Wave", "NavierStokesVorticity"]
-    for name in dict.fromkeys(names):
-        r = probe_param_derivatives(name, ctx.seed)
-        ctx.count(("oracle_derivatives", name))
-        if not r["ok"]:
-            for k in (r["bad"] or {"finite": 0}):
-                fails.append({"key": f"C07:{name}:{k}", "what": f"{name}: derivative '{k}' disagrees with central differences / adjoint identity / is not finite: {r['bad']}, finite={r['finite']}",
-                              "probe": "param_derivatives", "args": {"name": name, "seed": ctx.seed}, "observed": r})
+        for nm, od in (("Burgers", 1), ("KuramotoSivashinsky", 1), ("KortewegDeVries", 4)):   # fixed: every order family appears
+            r = probe_param_derivatives(nm, ctx.seed, od)
+            ctx.count(("oracle_derivatives", nm, od))
+            if not r["ok"]:
+                for k in (r["bad"] or {"finite": 0}):
+                    fails.append({"key": f"C07:{nm}:{k}", "what": f"{nm} (order {od}): derivative '{k}' disagrees with central differences / adjoint identity / forward mode, or is not finite: {r['bad']}, finite={r['finite']}",
+                                  "probe": "param_derivatives", "args": {"name": nm, "seed": ctx.seed, "order": od}, "observed": r})
+    for i, name in enumerate(dict.fromkeys(names)):
+        for order in ([(i + ctx.seed) % 4 + 1] if not deep else [1, 2, 3, 4]):
+            r = probe_param_derivatives(name, ctx.seed, order)
+            ctx.count(("oracle_derivatives", name, order))
+            if not r["ok"]:
+                for k in (r["bad"] or {"finite": 0}):
+                    fails.append({"key": f"C07:{name}:{k}", "what": f"{name} (order {order}): derivative '{k}' disagrees with central differences / adjoint identity / forward mode, or is not finite: {r['bad']}, finite={r['finite']}",
+                                  "probe": "param_derivatives", "args": {"name": name, "seed": ctx.seed, "order": order}, "observed": r})
     seen, out = set(), []
     for f in fails:
         if f["key"] not in seen:
@@ -139,4 +209,4 @@ def oracle(ctx, deep):
 
 
 def replay(probe, args):
-    return probe_param_derivatives(**args)
+    return {"param_derivatives": probe_param_derivatives, "guarded": probe_guarded_points}[probe](**args)
